@@ -2,6 +2,6 @@
 Require Import ExtrOcamlBasic.
 From NV Require Import Arith.NumTy Arith.Bits Arith.IntOps Arith.FloatOps Arith.VMOps
   Arith.Promote Arith.RtEval Arith.Constred Arith.Enumred Arith.EnumIndex Arith.Fmt.
-Extraction "arithmodel.ml" elab ty_of fold rt_eval rt_assign lit_val emit_ok no_enum_div
+Extraction "arithmodel.ml" elab ty_of fold rt_eval rt_assign lit_val emit_ok
   strict exec_bop exec_uop exec_conv fmt_int fmt_fixed2 canon to_Z_defined shift_ok
   check_bin check_un check_ass efold decl_indices index_of decls_eqs.
